@@ -104,7 +104,7 @@ def splice_fn(text, item, key):
     toks = lex(text)
     item = dict(item)
     item['contract'] = _cond(item.get('contract', '') or '', text)
-    item['loops'] = {k: _cond(v, text) for k, v in (item.get('loops') or {}).items()}
+    item['loops'] = dict(item.get('loops') or {})     # {{if_has:X}} in a loop invariant is resolved against the loop's enclosing block (below)
     item['proofs'] = [(a, _cond(t, text)) for a, t in (item.get('proofs') or [])]
     # body open: first '{' at paren depth 0
     j = 0
@@ -157,7 +157,19 @@ def splice_fn(text, item, key):
                         k = match_close(toks, k)
                     k += 1
                 if idx in loops:
-                    inserts.append((toks[k][2], toks[k][2], '\n' + loops[idx].strip('\n') + '\n'))
+                    # scope of an identifier usable in this loop's invariant: the innermost block containing the loop, up to the loop's end
+                    depth, b = 0, j
+                    while b > body:
+                        b -= 1
+                        tb = toks[b]
+                        if tb[0] == 'p' and tb[1] == '}':
+                            depth += 1
+                        elif tb[0] == 'p' and tb[1] == '{':
+                            if depth == 0:
+                                break
+                            depth -= 1
+                    scope = text[toks[b][2]:toks[match_close(toks, k)][3]]
+                    inserts.append((toks[k][2], toks[k][2], '\n' + _cond(loops[idx], scope).strip('\n') + '\n'))
                 loop_body_open[idx] = toks[k][3]
                 loop_body_close[idx] = toks[match_close(toks, k)][3]
                 idx += 1
